@@ -101,10 +101,11 @@ pub fn entries(tier_big: bool) -> BoxedStrategy<Vec<CEntry>> {
         .boxed()
     } else {
         prop_oneof![
-            2 => Just(vec![]),
-            12 => vec(centry(), 1..8),
-            3 => vec(centry(), 14..19),
-            1 => vec(centry(), 19..41),
+            16 => Just(vec![]),
+            96 => vec(centry(), 1..8),
+            24 => vec(centry(), 14..19),
+            8 => vec(centry(), 19..41),
+            1 => vec(centry(), 250..262),   // rare in the quick tier: messages beyond 4 KiB
         ]
         .boxed()
     }
